@@ -246,7 +246,7 @@ func init() {
 		Level: "exploration",
 		Rule:  "cases: (twin) one request of a generated history over 3 locations executed under TTL {never, 1 ms, forever} x CheckExistence {off, on} x state {indexed, linear} and directly on core.Locations, all results compared; with existence checking also requests to a never-created location (must fail, no trace in storage or cache); (first) one round of 8 concurrent first requests with seeded delays in sys.open.gap / sys.storage.gap, every fourth round a forced schedule (first opener parked in the gap); (overlap) one recorded register history of 3-5 overlapping clients under TTL never with requests held open by a sleeping action, checked per key by porcupine; non-trivial = the configurations differ in TTL and a location was re-opened (twin), always for first/overlap; distinct by (seed, history, configuration, request index)",
 		Floor: [2]int{40, 400},
-		Assumptions: []string{"load counts are read from GetStats().NewLocations and storage through PeekStorage (System offers no storage injection)", "through the System removing an absent id is an error (cron remove-hook), directly it is not: both outcomes are accepted for such requests"},
+		Assumptions: []string{"load counts are read from GetStats().NewLocations and storage through PeekStorage (System offers no storage injection)", "the directly operated locations get the same cron hooks as the System wires (they make removing an absent id an error)"},
 		Stages: []Stage{
 			{Name: "twin", Pkg: "./mon/c17", Procs: 2, Batches: [2]int{3, 8}, TimeoutS: [2]int{900, 3600}},
 			{Name: "first", Pkg: "./mon/c17", Race: true, Procs: 8, Batches: [2]int{2, 4}, TimeoutS: [2]int{900, 3600}, HangIsViolation: true},
